@@ -8,9 +8,9 @@ from harness import cmd_suite as cs
 PROP = "C01"
 COQ = dict(imports=["Model.Plan", "Spec.C01"], in_ty="input01", out_ty="pres (list N)",
            corr="corr_C01", decide="check_C01", inclass="inclass_C01", model="model_C01")
-SUITES = {"cmd": cs.SUITE}
+SUITES = {"cmd": cs.SUITE, "cmdseq": cs.SUITE_SEQ}
 cleanup = cs.cleanup
-THEOREMS = ["C01_whole_command_model", "C01_whole_command_decider_sound", "C01_cyclic_history_refused", "C01_plan_exact", "C01_total", "C01_model_holds", "C01_decider_sound", "C01_inclass", "C01_normalisation", "C01_upgrade_heads_applies_all"]
+THEOREMS = ["C01_whole_command_model", "C01_whole_command_decider_sound", "C01_cyclic_history_refused", "C01_session_model_holds", "C01_session_decider_sound", "C01_plan_exact", "C01_total", "C01_model_holds", "C01_decider_sound", "C01_inclass", "C01_normalisation", "C01_upgrade_heads_applies_all"]
 TRUSTED = ["target strings (ids, partial ids, head(s), label@head, rev+N) are resolved by the real "
            "_parse_upgrade_target and handed to the model as revision ids: C01 is planner-after-resolution, "
            "target resolution itself is C16",
@@ -23,7 +23,7 @@ RULE = ("exhaustive: every acyclic history on <=4 revisions (none/down_revision/
         "labelled family: every acyclic history on <=3 (sampled for 4) revisions with a branch label on each revision in turn, every antichain state, requests {label@head, label@+1, label@+2, head}; seeded random: histories of 5-10 revisions (merges, depends_on, redundant parents, branch labels) with rows reached by "
         "random upgrade/downgrade/stamp commands of the real planner, targets incl. head, label@head, partial ids, rev+N. "
         "plus end-to-end runs (real script files, env.py, command.upgrade on SQLite: the plan is the order in which upgrade() functions actually ran; 40 quick / 1500 thorough). thorough adds all load orders for <=4 and 40x the random budget. non-trivial = non-empty plan; distinct by encoded case")
-RULE = RULE + (" || suite cmd, the whole command end to end (real script directory, env.py, SQLite, alembic.command.upgrade with the target string exactly as typed; observed: which scripts ran in which order, the version table afterwards, the exception class): EVERY acyclic history of <=3 revisions x EVERY antichain version table x every target spelling of a fixed list (ids, partial ids, head(s), base, +N/-N, id+N/id-N, junk, ranges a:b), the same with a branch label on each revision in turn (label@head, label@+N/-N, label@id, label), 40 sampled (thorough: all 729) histories of 4 revisions, seeded random histories of 4-8 revisions with labels, merges and depends_on; compared exactly with Model.Command.run_command and judged by Spec.Command.check_cmd")
+RULE = RULE + (" || suite cmd, the whole command end to end (real script directory, env.py, SQLite, alembic.command.upgrade with the target string exactly as typed; observed: which scripts ran in which order, the version table afterwards, the exception class): EVERY acyclic history of <=3 revisions x EVERY antichain version table x every target spelling of a fixed list (ids, partial ids, head(s), base, +N/-N, id+N/id-N, junk, ranges a:b), the same with a branch label on each revision in turn (label@head, label@+N/-N, label@id, label), 40 sampled (thorough: all 729) histories of 4 revisions, seeded random histories of 4-8 revisions with labels, merges and depends_on; compared exactly with Model.Command.run_command and judged by Spec.Command.check_cmd; histories WITH cycles (all digraphs on 2 revisions, sampled on 3) must be refused; suite cmdseq: SESSIONS of typed commands on one database from the empty state (every pair of commands from a fixed list on every history of 2 revisions and sampled histories of 3; random sessions of 3-6 commands on random histories of 3-8 revisions), every command observed with the rows it found, chained")
 EXHAUSTIVE = {"quick": True, "thorough": True}
 CASE_TIMEOUT = 10
 DESIGN_REF = "DESIGN.md section 5 C01, Appendix A"
@@ -84,6 +84,7 @@ def _coq_tgt(struct, g):
 
 def generate(tier, seed):
     yield from cs.generate(True, tier, seed)      # whole commands, end to end (suite "cmd")
+    yield from cs.generate_sessions(tier, seed)   # sessions of typed commands on one database (suite "cmdseq")
     yield from _generate_plans(tier, seed)
 
 
@@ -229,7 +230,7 @@ def _one(g, m, sd, S, t, st):
 
 
 def run_case(h):
-    if "cmd" in h:
+    if "cmd" in h or "cmdseq" in h:
         return cs.run_cmd_case(h)
     if "e2e" in h:
         return _e2e(h)
@@ -256,7 +257,7 @@ def classify(human, out):
 
 
 def canary(human, rec):
-    if "cmd" in human:
+    if "cmd" in human or "cmdseq" in human:
         return cs.canary(human, rec)
     """corrupted plans the decider must reject: a revision dropped, a revision repeated, an error instead of a plan"""
     plan = rec["out"].get("plan")
